@@ -552,6 +552,9 @@ async fn on_commitment_revocation(
             let mut state = plugin.state().lock().unwrap();
             state.add_pending_appointment(tower_id, &appointment);
 
+            // The status was read before the loop. The tower may have been delivered its pending data meanwhile, in which
+            // case there is no idle retrier left to pick this up later: decide on what the tower looks like right now.
+            let status = state.get_tower_status(&tower_id).unwrap_or(status);
             if !status.is_unreachable() {
                 send_to_retrier(&state, tower_id, appointment.locator);
             }
